@@ -1,95 +1,191 @@
-"""Per-property metadata used by ./check: how the property is decided, which clauses this family
-cannot reach (excluded), and extra trusted-base entries. A property is *claimed* iff it is listed here."""
+"""Per-property metadata used by ./check and tools/gen_manifest.py: which contracts carry the property (proved part),
+what only the bounded stand-in decides, which clauses this family cannot reach (excluded), and extra trusted-base
+entries.  A property is *claimed* iff it is listed in PROPERTIES.  The function lists themselves are not kept here:
+they are the `properties=` tags of the contracts (contracts/*.py, contracts/__init__.py EXTRA_TAGS) and are written to
+the evidence file by every run."""
 
 PROPERTIES = {
-    "C11": {
-        "decided_by": "postconditions of intersect / is_subspace / function_eval / percolate_space_strict over the "
-                      "three-valued evaluation EvalOn and the strict least fixed point (lemma L1 instances); "
-                      "percolate_space is a wrapper around AEON's Percolation.percolate_subspace (assumed = Perc, "
-                      "bounded conformance); single-node LDOI / driver queries are comprehensions over it",
+    "C01": {
+        "decided_by": "Proved: node_attractor_seeds returns a system of distinct representatives of exactly the attractors owned by the node "
+                      "(inside its space, inside no successor recorded in the ghost successor signature) and caches it (I-cache); "
+                      "node_attractor_candidates / compute_attractor_candidates return a list that covers every owned attractor (phases 2-3 "
+                      "of the candidate computation against the retained-set lemma L7); symbolic_attractor_test returns None iff the pivot "
+                      "reaches the avoid set and otherwise exactly the forward closure (least-ness L8), with a termination variant; "
+                      "compute_fixed_point_reduced_STG enumerates ReducedSol up to the limit.",
+        "bounded": "one-to-one correspondence of seeds and attractors over whole diagrams for all complete strategies vs brute-force terminal SCCs "
+                   "(the per-node contracts compose over the diagram only through L3/L12, which is not mechanised for block/SCC strategies)",
         "excluded": [],
-        "trusted": ["AEON Percolation.percolate_subspace computes Perc (assumed; exercised by the bounded conformance sweep)"],
+        "trusted": ["L7 (cited: Klarner-Siebert retained sets), L8 (Lean), L3 (Lean)", "pinned fragment: construction of the avoid list in compute_attractor_candidates",
+                    "pinned fragments: two heuristic-choice fragments of symbolic_attractor_test"],
     },
     "C02": {
-        "decided_by": "SuccessionDiagram invariant (I-ids, I-key, I-space, I-root, I-stub, I-norm, I-edge.rank, I-depth) required and "
-                      "ensured by _ensure_edge, _ensure_node, _expand_one_node, node_successors, expand_bfs; I-norm pins the exact "
-                      "sequence of (stable motif, percolated child) pairs of every normally expanded node to the key-sorted "
-                      "enumeration of its maximal trap spaces (ghost successor signature); expand_bfs returns True only when every "
-                      "node reachable from the start node is expanded",
+        "decided_by": "Proved: SuccessionDiagram.__init__ establishes and _ensure_edge, _ensure_node, _expand_one_node, node_successors, expand_bfs, "
+                      "expand_dfs preserve the diagram invariant (I-ids, I-key, I-space, I-root, I-stub, I-norm, I-edge.rank, I-depth); I-norm pins "
+                      "the exact sequence of (stable motif, percolated child) pairs of every normally expanded node to the key-sorted enumeration "
+                      "of its maximal trap spaces (ghost successor signature); expand_bfs / expand_dfs return True only when every node reachable "
+                      "from the start node is expanded; percolate_space = Perc, space_unique_key = SKey.",
+        "bounded": "whole-diagram comparison with the brute-force hierarchy of percolated trap spaces on small networks",
         "excluded": [],
-        "trusted": ["trappist call-site contract (solver enumerates TrapSol; L4/L5 glue to MaxTrapSet)", "percolate_space = Perc", "space_unique_key = SKey (L10 injective)"],
-    },
-    "C04": {
-        "decided_by": "data-structure invariant after every operation: _expand_one_node / node_successors / expand_bfs require and ensure the "
-                      "full invariant and the monotone-extension relation ext(new, old) (an expanded node never changes: same successor "
-                      "signature, edges, motifs, caches); transitivity of ext is a schema lemma proved by SMT on every run, so the claim "
-                      "holds for every interleaving by induction on the call sequence",
-        "excluded": ["confluence with a fresh full expansion is the corollary I-norm + expand_bfs completeness (lemma c04_confluence, not mechanised)"],
-        "trusted": ["trappist call-site contract", "percolate_space = Perc", "space_unique_key = SKey"],
-    },
-    "C10": {
-        "decided_by": "restrict_petrinet_to_subspace: full characterisation of the node and edge sets of the result for an arbitrary "
-                      "(uninterpreted) net and subspace, all five loops with invariants; argument untouched (functional value model)",
-        "excluded": ["network_to_petrinet / _create_transitions / percolate_network: assumed AEON BDD operations dominate; bounded stand-in only"],
-        "trusted": ["networkx DiGraph operations", "L5: the syntactic characterisation implies Encodes(restrict(p,T), N, S∪T) (cited; bounded validation)"],
-    },
-    "C14": {
-        "decided_by": "I-cache (CacheOK relative to the ghost successor signature of each node) is part of the invariant ensured by "
-                      "_ensure_node, _expand_one_node (caches_discarded + raises.nothing_cached), node_successors, reclaim_node_data; "
-                      "CacheOK(none, none, none) is the only axiom that re-establishes it after a successor is added",
-        "excluded": ["skip paths, source shortcuts and sub-diagram attachment are decided by the bounded stand-in only (contracts not yet written)"],
-        "trusted": ["meaning of CacheOK (each non-None cache field is correct for the current successor signature)"],
-    },
-    "C15": {
-        "decided_by": "exceptional postconditions: _expand_one_node / node_successors raising RuntimeError leave the full invariant, the node "
-                      "unexpanded without successors and with no cached attractor data, and every other node untouched; expand_bfs: "
-                      "True => every reachable node expanded, False => a limit was given and (size limit) an unexpanded node exists",
-        "excluded": ["identity of greedy partial diagrams across interrupted/uninterrupted runs (two-run property)"],
-        "trusted": ["trappist may raise RuntimeError without modifying anything (clingo failure model)", "max_motifs_per_node >= 0"],
-    },
-    "C16": {
-        "decided_by": "reclaim_node_data: frame postcondition (only percolated network / Petri net / NFVS dropped, candidates dropped only "
-                      "where seeds are known; spaces, edges, motifs, flags, seeds, sets untouched) and invariant preservation; "
-                      "restrict_petrinet_to_subspace is a function of its arguments (recomputation gives the same value)",
-        "excluded": ["pickle round trip (__getstate__/__setstate__): dictionary unpacking and AEON text round trip are outside the subset; bounded stand-in only"],
-        "trusted": ["pickle, AEON to_aeon/from_aeon"],
-    },
-    "C20": {
-        "decided_by": "_update_node_depth (recursive; satisfied edges stay satisfied, node depth exact, nodes not below unchanged), "
-                      "_ensure_edge (edge-consistency of depths restored after every new edge), depth() = maximum, __len__ / node_ids / "
-                      "stub_ids / expanded_ids contiguous ids, find_node exact match via key injectivity (L10), node_is_minimal",
-        "excluded": ["summary()/build() text output and is_subgraph/is_isomorphic: bounded stand-in only (string building outside the subset)"],
-        "trusted": ["space_unique_key = SKey (L10)", "networkx"],
+        "trusted": ["trappist_async call-site contract (clingo enumerates TrapSol; L4/L5 glue to MaxTrapSet)", "AEON Percolation = Perc", "L10 (Lean): key injective"],
     },
     "C03": {
-        "decided_by": "none-spurious / none-duplicated from the invariant (I-norm, I-key) of the verified expansion core; none-missing for BFS "
-                      "from expand_bfs's postcondition (True => every reachable node expanded) and node_is_minimal = expanded leaf; "
-                      "block / SCC / minimal-space / attractor-seed strategies and the skip paths: bounded stand-in only",
+        "decided_by": "Proved: none-spurious / none-duplicated from the invariant (I-norm, I-key) of the verified expansion core; none-missing for BFS and "
+                      "DFS from their postcondition (True => every reachable node expanded) and node_is_minimal = expanded leaf; skip_to_minimal, "
+                      "skip_remaining and make_skip_node attach exactly the minimal trap spaces inside the node (SkipOK signature).",
+        "bounded": "block / SCC / minimal-space / attractor-seed strategies end to end vs brute-force minimal trap spaces",
         "excluded": [],
         "trusted": ["L3/L12 (Lean): leaves of the full diagram are the minimal trap spaces", "L13 (cited): block / source-SCC independence"],
     },
-    "C01": {"decided_by": "contracts for the attractor layer are not yet discharged; this property is currently decided by the bounded stand-in "
-                          "(brute-force attractors vs seeds for all complete strategies)", "excluded": [], "trusted": ["L7, L13 (cited)"]},
-    "C05": {"decided_by": "bounded stand-in (skip-node histories on motif-avoidant networks vs brute-force attractors); the per-node skip-exclusion "
-                          "obligation is known to fail (D12, known finding)", "excluded": [], "trusted": []},
-    "C06": {"decided_by": "bounded stand-in (every reported intervention simulated on the overridden network)", "excluded": [], "trusted": ["L11 (Lean): LDOI theorem"]},
-    "C07": {"decided_by": "_ensure_edge (every stable motif of an edge is recorded exactly once, in order) is proved; find_drivers / "
-                          "successions_to_target: bounded stand-in against brute-force minimal driver sets and path enumeration",
-            "excluded": ["completeness with skip_feedforward_successions=True (order dependent)"], "trusted": []},
-    "C08": {"decided_by": "bounded stand-in over all four option combinations and small / zero configuration values", "excluded": [], "trusted": ["L7 (cited)"]},
-    "C09": {"decided_by": "bounded stand-in: solver output vs brute-force trap spaces / fixed points / reduced-STG deadlocks for all problem kinds, "
-                          "time directions, ensure / avoid subspaces, source lists and limits", "excluded": [], "trusted": ["clingo enumeration modes", "L4, L9 (Lean)"]},
-    "C12": {"decided_by": "bounded stand-in (attractor sets vs brute-force terminal SCCs; fallback vs default)", "excluded": [], "trusted": []},
-    "C13": {"decided_by": "percolate_space_strict is within the subset (its loops are cut at invariants; variants not yet stated); all other "
-                          "termination claims: bounded stand-in with a per-case wall-clock limit", "excluded": [], "trusted": ["every external call terminates"]},
-    "C17": {"decided_by": "bounded stand-in (metamorphic: rename / reorder / re-encode / negate, sanitisation clashes)", "excluded": ["equality of the three AEON parsers"],
-            "trusted": ["L-equivariance (not mechanised)"]},
-    "C18": {"decided_by": "bounded stand-in (disjoint unions, input valuations, published models <= 12 variables vs AEON attractors)",
-            "excluded": ["agreement with an independent computation on large models is empirical by nature"], "trusted": ["L14 (Lean): products"]},
-    "C19": {"decided_by": "order-independence: every verified loop over a set / dict is proved for an arbitrary iteration order (percolate_space_strict, "
-                          "restrict_petrinet_to_subspace) and its postcondition determines the result uniquely; whole-diagram reproducibility across "
-                          "hash seeds: bounded stand-in", "excluded": [], "trusted": ["AEON / clingo / networkx deterministic"]},
+    "C04": {
+        "decided_by": "Proved: data-structure invariant after every operation: _expand_one_node / node_successors / expand_bfs / expand_dfs / "
+                      "expand_to_target require and ensure the full invariant and the monotone-extension relation ext(new, old) (an expanded node "
+                      "never changes: same successor signature, edges, motifs, caches); transitivity of ext is a schema lemma proved by SMT on every "
+                      "run, so the claim holds for every interleaving by induction on the call sequence; stub_ids / expanded_ids are exact.",
+        "bounded": "lazily built vs fully built diagrams compared node by node on small networks, including level / size limited histories",
+        "excluded": ["confluence with a fresh full expansion is the corollary I-norm + expand_bfs completeness (lemma c04_confluence, not mechanised)"],
+        "trusted": ["trappist_async call-site contract", "AEON Percolation = Perc", "L10"],
+    },
+    "C05": {
+        "decided_by": "Proved: skip_to_minimal, skip_remaining, make_skip_node turn a stub into a skip node whose successors are exactly the minimal trap "
+                      "spaces inside it (I-skip), discard its cached attractor data, and leave expanded nodes untouched; compute_attractor_candidates "
+                      "covers the owned attractors for the CURRENT successor signature.  The per-node skip-exclusion rule of the candidate "
+                      "computation (regions of nodes with empty caches are removed) is known to lose attractors: known finding D12.",
+        "bounded": "skip-node histories on motif-avoidant networks vs brute-force attractors (mechanism-exact classification of D12)",
+        "excluded": [],
+        "trusted": ["L3 (Lean)"],
+    },
+    "C06": {
+        "decided_by": "Proved: find_drivers returns only overrides that force the motif under the LDOI of the symbolic graph and respect the forbidden set, "
+                      "the strategy pool and the size bound; drivers_of_succession judges every step relative to the values fixed by the previous "
+                      "steps (accumulated percolation); expand_to_target explores the target region (True) or stops at the size limit with a stub.",
+        "bounded": "every reported intervention simulated on the overridden network (reaches / stays in the target)",
+        "excluded": [],
+        "trusted": ["L11 (Lean): LDOI theorem", "successions_to_target (path enumeration over networkx) not under contract"],
+    },
+    "C07": {
+        "decided_by": "Proved: _ensure_edge records every stable motif of an edge exactly once, in order; find_drivers / drivers_of_succession never report a "
+                      "forbidden variable, an oversized set or a non-driver (soundness and constraint respect).",
+        "bounded": "completeness and minimality of driver sets and of successions vs brute force",
+        "excluded": ["completeness with skip_feedforward_successions=True (order dependent)"],
+        "trusted": ["edge_stable_motif (assumed)"],
+    },
+    "C08": {
+        "decided_by": "Proved: compute_attractor_candidates covers every owned attractor on every path through its option combinations that is within the "
+                      "subset (retained set from make_heuristic_retained_set assigns exactly the NFVS; asp_greedy_retained_set_optimization never "
+                      "increases the candidate count, keeps the variable set, terminates).",
+        "bounded": "all four option combinations and small / zero configuration values vs brute-force attractors",
+        "excluded": [],
+        "trusted": ["L7 (cited)", "run_simulation_minification, node_percolated_nfvs, state_list_to_bdd (assumed contracts)"],
+    },
+    "C09": {
+        "decided_by": "Proved: _create_clingo_constraints and _create_clingo_fixed_point_constraints add EXACTLY the rules of the specified answer-set "
+                      "program (rule-level specification over an abstract syntax of the generated texts; enumeration mode matches the problem); "
+                      "_clingo_model_to_space / _clingo_model_to_fixed_point decode atoms with the right polarity; variable_to_place / place_to_variable "
+                      "are mutually inverse on real strings; trappist and compute_fixed_point_reduced_STG return an enumeration of the requested set, "
+                      "complete unless truncated by the limit, via the callback schema.",
+        "bounded": "solver output vs brute-force trap spaces / fixed points / reduced-STG deadlocks for all problem kinds, time directions, ensure / avoid "
+                   "subspaces, source lists and limits",
+        "excluded": [],
+        "trusted": ["clingo parses the rule texts as the abstract rules and enumerates subset-minimal / -maximal stable models (domRec)",
+                    "L4 (Lean, siphon half; reverse-time half cited), L9 (Lean): stable models of the specified program = TrapSol",
+                    "trappist_async / compute_fixed_point_reduced_STG_async bodies (ground / solve / iterate) are assumed"],
+    },
+    "C10": {
+        "decided_by": "Proved: restrict_petrinet_to_subspace: full characterisation of the node and edge sets of the result for an arbitrary (uninterpreted) "
+                      "net and subspace, all five loops with invariants, argument untouched; node_percolated_petri_net / node_percolated_network "
+                      "return a value that is a function of (global net, node space) regardless of cache state.",
+        "bounded": "network_to_petrinet / percolate_network vs brute-force dynamics (AEON BDD operations dominate them)",
+        "excluded": ["network_to_petrinet / _create_transitions / percolate_network: assumed contracts; bounded stand-in only"],
+        "trusted": ["networkx DiGraph operations", "L5: the syntactic characterisation implies Encodes(restrict(p,T), N, S u T) (cited; bounded validation)"],
+    },
+    "C11": {
+        "decided_by": "Proved: postconditions of intersect / is_subspace / function_eval / percolate_space_strict / percolation_conflicts over the three-valued "
+                      "evaluation EvalOn and the strict least fixed point (lemma L1 instances, Lean); percolate_space is a wrapper around AEON's "
+                      "Percolation.percolate_subspace (assumed = Perc).",
+        "bounded": "conformance of AEON percolation with the reference Perc; LDOI / driver comprehensions",
+        "excluded": [],
+        "trusted": ["AEON Percolation.percolate_subspace computes Perc (assumed; exercised by the bounded conformance sweep)"],
+    },
+    "C12": {
+        "decided_by": "Proved: node_attractor_sets returns the attractor sets of the node's seeds in the same order and caches them; "
+                      "symbolic_attractor_test returns exactly the forward closure of the pivot when it does not reach the avoid set (= the attractor, L8).",
+        "bounded": "attractor sets vs brute-force terminal SCCs; symbolic fallback vs default pipeline",
+        "excluded": [],
+        "trusted": ["compute_attractors_symbolic, symbolic_attractor_fallback, sort_variable_list (assumed contracts)", "AEON vertex-set algebra"],
+    },
+    "C13": {
+        "decided_by": "Proved (termination variants discharged): symbolic_attractor_test main loop (lexicographic variant over set cardinalities), "
+                      "asp_greedy_retained_set_optimization; percolate_space_strict loops are cut at invariants with finite iteration spaces; "
+                      "for-loops over finite collections terminate by construction of the iteration protocol.",
+        "bounded": "every public operation under a per-case wall-clock limit and a counted work bound for the simulation rounds",
+        "excluded": ["termination of clingo / AEON calls"],
+        "trusted": ["every external call terminates", "recursion of _update_node_depth (well-founded on rank, stated as a precondition, variant not generated)"],
+    },
+    "C14": {
+        "decided_by": "Proved: I-cache (CacheOK relative to the ghost successor signature of each node) is part of the invariant ensured by __init__, "
+                      "_ensure_node, _expand_one_node (caches_discarded + raises.nothing_cached), node_successors, reclaim_node_data, the skip functions "
+                      "and the three attractor accessors (known data never overwritten, frame); CacheOK(none, none, none) is the only way to "
+                      "re-establish it after a successor is added.",
+        "bounded": "source shortcuts and sub-diagram attachment (expand_source_blocks / SCCs), non-default configurations",
+        "excluded": [],
+        "trusted": ["meaning of CacheOK (each non-None cache field is correct for the current successor signature)"],
+    },
+    "C15": {
+        "decided_by": "Proved: exceptional postconditions: _expand_one_node / node_successors raising RuntimeError leave the full invariant, the node unexpanded "
+                      "without successors and with no cached attractor data, and every other node untouched; expand_bfs / expand_dfs / expand_to_target: "
+                      "True => complete, False => a limit was given and the stated reason holds, RuntimeError => invariant and ext preserved; "
+                      "trappist / save_result respect solution limits exactly.",
+        "bounded": "identity of partial diagrams across interrupted / uninterrupted runs (two-run comparison)",
+        "excluded": [],
+        "trusted": ["trappist may raise RuntimeError without modifying anything (clingo failure model)", "max_motifs_per_node >= 0"],
+    },
+    "C16": {
+        "decided_by": "Proved: __getstate__ returns the six state fields unchanged and modifies nothing; __setstate__ installs exactly those fields and rebuilds "
+                      "the network and symbolic graph from the rules; schema lemma S.pickle_roundtrip_is_identity (SMT, every run): setstate(getstate(v)) "
+                      "is identical to v field by field; reclaim_node_data drops only recomputable data (candidates only where seeds are known) and "
+                      "preserves the invariant; the percolated nets are functions of (global net, space), so recomputation gives the same value.",
+        "bounded": "pickle / reclaim round trips mid-history compared on every observable and every later call",
+        "excluded": [],
+        "trusted": ["pickle serialises the state record faithfully", "AEON to_aeon / from_aeon round trip of a cleaned network (assumed axiom)"],
+    },
+    "C17": {
+        "decided_by": "Proved: every verified result is specified over the SEMANTICS of the network (EvalOn of update BDDs, Perc, trap spaces), never over formula "
+                      "syntax, so logically equivalent presentations give the same values (function_eval, percolate_space_strict, percolate_space); "
+                      "space_unique_key depends only on variable indices; place names are an injective encoding of (variable, polarity) on real strings; "
+                      "the generated ASP programs are sets of rules over those names.",
+        "bounded": "metamorphic runs: rename / reorder / re-encode / negate, sanitisation clashes, three input formats",
+        "excluded": ["equality of the three AEON parsers", "sanitize_network_names (regular-expression rewriting) is outside the subset"],
+        "trusted": ["equivariance of the abstract diagram under renaming / reordering (not mechanised)"],
+    },
+    "C18": {
+        "decided_by": "Proved: the abstract diagram below a node is a function of (network, node space): __init__, _ensure_node, _expand_one_node, "
+                      "node_successors, expand_bfs have functional postconditions (I-norm, ids allocated in attachment order, sources fixed jointly at "
+                      "the root).  With L14 (Lean: trap spaces and attractors of a disjoint union are the pairwise products) and the restriction lemma "
+                      "this gives the product and input-conditioning clauses for BFS-built diagrams.",
+        "bounded": "disjoint unions, input valuations under build / block / scc / attractor-seed / dfs strategies, published models <= 12 variables vs AEON",
+        "excluded": ["agreement with an independent computation on large published models is empirical by nature",
+                     "expand_source_blocks / expand_source_SCCs / attach_scc_subdiagram are not under contract (bounded only)"],
+        "trusted": ["L14 (Lean): products", "restriction of the diagram to an input valuation (cited)"],
+    },
+    "C19": {
+        "decided_by": "Proved: order-independence: every verified loop over a set / dict is proved for an ARBITRARY iteration order and its postcondition "
+                      "determines the result uniquely (percolate_space_strict, restrict_petrinet_to_subspace, the ASP program builders, find_drivers' "
+                      "soundness); expansion allocates node ids in the key-sorted enumeration order (functional postconditions of _ensure_node / "
+                      "_expand_one_node / expand_bfs / expand_dfs), so ids, spaces, edges and motifs are a function of the network.",
+        "bounded": "whole-diagram reproducibility across processes and PYTHONHASHSEED values, and after unrelated calls",
+        "excluded": [],
+        "trusted": ["AEON / clingo / networkx are deterministic", "run_simulation_minification uses a fixed seed (assumed contract)"],
+    },
+    "C20": {
+        "decided_by": "Proved: _update_node_depth (recursive; satisfied edges stay satisfied, node depth exact, nodes not below unchanged), _ensure_edge "
+                      "(edge-consistency of depths restored after every new edge), depth() = maximum, __len__ / node_ids / stub_ids / expanded_ids "
+                      "contiguous ids, find_node exact match via key injectivity (L10), node_is_minimal, is_subgraph / is_isomorphic decide inclusion / "
+                      "equality of node and edge sets, __init__ creates a single unexpanded root.",
+        "bounded": "summary() / build() text output; depth = longest path on multi-path diagrams",
+        "excluded": ["summary()/build() string building is outside the subset"],
+        "trusted": ["L10", "networkx"],
+    },
 }
 
-# Properties not (yet) claimed, with the reason recorded in MANIFEST.json.
+# Properties not claimed, with the reason recorded in MANIFEST.json.
 NOT_APPLICABLE = {}
